@@ -1,6 +1,6 @@
 (* C15, converse direction: the declaration tails, typedef, const, fields read backwards. *)
 From PVIdl Require Import Comb Ast Parser Print Proofs.Total Proofs.RoundTok Proofs.RoundPath Proofs.RoundAnn Proofs.RoundTy
-  Proofs.RoundKit Proofs.RoundNum Proofs.RoundConst Proofs.RoundDecl Proofs.RoundField
+  Proofs.RoundKit Proofs.Lex Proofs.RoundNum Proofs.RoundConst Proofs.RoundDecl Proofs.RoundField
   Proofs.InvKit Proofs.InvTok Proofs.InvTy Proofs.InvNum Proofs.InvConst.
 From Coq Require Import ZifyN ZifyNat ZifyBool.
 From Coq Require String.
@@ -113,7 +113,7 @@ Qed.
 Theorem constant_inv i r a : p_constant lf df i = POk r a ->
   exists c, i = pr_constant c r /\ erase_constant c = a /\
             (heads_ok_type (ck_type c) = true -> cok_const (ck_val c) = true -> wf_constant (is_nil r) c = true) /\
-            (tail_open (ck_tail c) = true -> noblank r).
+            (tail_open (ck_tail c) = true -> noblank r) /\ cont_ok (ck_val c) (pr_tail (ck_tail c) r) = true.
 Proof.
   unfold p_constant. intros H. binv H. inversion H; subst. cbn beta in *.
   apply tag_inv in E. destruct E as [-> _].
@@ -122,7 +122,7 @@ Proof.
   destruct (blank_inv _ _ _ _ B1) as [b1 [-> [N1 [K1 _]]]]. destruct (type_inv _ _ _ _ _ T1) as [t [-> [<- [Wt [_ Ht]]]]].
   destruct (blank_inv _ _ _ _ B2) as [b2 [-> [N2 [K2 _]]]]. destruct (ident_inv _ _ _ T2) as [-> [Hname _]].
   destruct (oblank_inv _ _ _ _ B3) as [b3 [-> [K3 _]]]. apply tag_inv in T3. destruct T3 as [-> _].
-  destruct (oblank_inv _ _ _ _ B4) as [b4 [-> [K4 _]]]. destruct (const_inv _ _ _ _ _ T4) as [v [-> [<- [Wv Hv]]]].
+  destruct (oblank_inv _ _ _ _ B4) as [b4 [-> [K4 _]]]. destruct (const_inv _ _ _ _ _ T4) as [v [-> [<- [[Wv Hv] Cv]]]].
   destruct (tail_inv _ _ _ _ _ _ _ E4 E5 E6) as [tl [-> [Ean [Wtl [Hop [_ Hbare]]]]]].
   eexists (mkCConstant b1 t b2 _ b3 b4 v tl). unfold pr_constant, erase_constant, wf_constant.
   cbn [ck_b1 ck_type ck_b2 ck_name ck_b3 ck_b4 ck_val ck_tail]. change kw_const with (txt "const"). change sym_const_eq with (txt "=").
@@ -163,11 +163,12 @@ Lemma default_group_inv i i1 i2 o o2 :
   opt (fun i => do i, _ <- tag sym_field_eq i ;; do i, _ <- opt (p_blank lf) i ;; p_const_value lf df i) i = POk i1 o ->
   opt (p_blank lf) i1 = POk i2 o2 -> noblank i ->
   exists d, i = pr_default d i2 /\ o = erase_default d /\ (i2 <> [] -> dok d = true -> wf_default d = true) /\ noblank i2 /\
-            (d = None -> i2 = i) /\ (match d with Some (_, _, b2) => blank_ok b2 i2 | None => True end).
+            (d = None -> i2 = i) /\ (match d with Some (_, _, b2) => blank_ok b2 i2 | None => True end) /\
+            (match d with Some (_, v, b2) => cont_ok v (pr_blank b2 i2) = true | None => True end).
 Proof.
   intros E1 E2 Hn. apply opt_inv in E1. destruct E1 as [[v [-> E1]]|[-> [-> _]]].
   - binv E1. apply tag_inv in E. destruct E as [-> _]. destruct (oblank_inv _ _ _ _ E0) as [b5 [-> [K5 _]]].
-    destruct (const_inv _ _ _ _ _ E1) as [c [-> [<- [Wc Hc]]]]. destruct (oblank_inv _ _ _ _ E2) as [b6 [-> [K6 [N6 _]]]].
+    destruct (const_inv _ _ _ _ _ E1) as [c [-> [<- [[Wc Hc] Cc]]]]. destruct (oblank_inv _ _ _ _ E2) as [b6 [-> [K6 [N6 _]]]].
     exists (Some (b5, c, b6)). cbn [pr_default erase_default dok wf_default]. change sym_field_eq with (txt "="). repeat split; auto; try discriminate.
     intros Hr Hok. now rewrite (blank_ok_nonnil _ _ K5 Hc), (Wc Hok), (blank_ok_nonnil _ _ K6 Hr).
   - destruct (noblank_oblank _ _ _ _ Hn E2) as [-> _]. exists None. repeat split; auto.
@@ -182,11 +183,11 @@ Definition dhead (x : list byte) : Prop := exists b0 rest, x = b0 :: rest /\ is_
 Theorem field_inv i r f : p_field lf df i = POk r f ->
   exists c, i = pr_field c r /\ erase_field c = f /\ (r <> [] -> ok_field c = true -> wf_field c = true) /\ noblank r /\
             (cf_sep c = SepNone -> nosep r = true) /\ dhead (pr_field c r) /\
-            (field_ends_word c = true -> cf_default c = None -> nid r = true).
+            (field_ends_word c = true -> hd_is is_digit r = false).
 Proof.
   unfold p_field. intros H. binv H. inversion H; subst.
   unfold p_field_id in E. apply map_res_inv in E. destruct E as [id [E Pid]]. binv E. inversion E; subst.
-  destruct (digit1_inv _ _ _ E12) as [-> [Nid Did]]. destruct (oblank_inv _ _ _ _ E13) as [b1 [-> [K1 _]]].
+  destruct (digit1_inv _ _ _ E12) as [-> [Nid [Did _]]]. destruct (oblank_inv _ _ _ _ E13) as [b1 [-> [K1 _]]].
   apply tag_inv in E14. destruct E14 as [-> _].
   destruct (parse_unsigned_inv 10 i32_max _ _ ltac:(lia) ltac:(unfold i32_max; lia) Pid) as [-> Rid].
   destruct (oblank_inv _ _ _ _ E0) as [b2 [-> [K2 [N2 _]]]].
@@ -194,7 +195,7 @@ Proof.
   destruct (attr_group_inv _ _ _ _ _ E1 E2 N2 ltac:(rewrite Et; exact Ht)) as [at_ [-> [Eat Wat]]]. subst i3.
   destruct (oblank_inv _ _ _ _ E4) as [b3 [-> [K3 _]]]. destruct (ident_inv _ _ _ E5) as [-> [Hname Hnid]].
   destruct (oblank_inv _ _ _ _ E6) as [b4 [-> [K4 [N4 _]]]].
-  destruct (default_group_inv _ _ _ _ _ E7 E8 N4) as [d [-> [-> [Wd [Nd [Hdn Kd]]]]]].
+  destruct (default_group_inv _ _ _ _ _ E7 E8 N4) as [d [-> [-> [Wd [Nd [Hdn [Kd Cd]]]]]]].
   destruct (tail2_inv _ _ _ _ _ _ _ E9 E10 E11 Nd) as [an [sp [-> [-> [Wt2 [Nr [Hsn Ht2n]]]]]]].
   eexists (mkCField _ b1 b2 at_ t b3 _ b4 d an sp). unfold pr_field, erase_field, wf_field, field_ends_word, ok_field.
   cbn [cf_id cf_b1 cf_b2 cf_attr cf_type cf_b3 cf_name cf_b4 cf_default cf_anns cf_sep]. change sym_field_colon with (txt ":").
@@ -222,8 +223,12 @@ Proof.
     rewrite Wb3. destruct id; [contradiction|]. cbn [is_nil negb andb]. rewrite !andb_true_r. apply Z.leb_le. unfold i32_max in Rid. exact Rid.
   - destruct id as [|d0 id]; [contradiction|]. cbn [is_digits forallb] in Did. apply andb_prop in Did. destruct Did as [Dd _].
     exists d0, (id ++ pr_blank b1 (txt ":" ++ pr_blank b2 (pr_attr at_ (pr_type t (pr_blank b3 (a5 ++ pr_blank b4 (pr_default d (pr_tail2 an sp r)))))))). auto.
-  - intros Hfe Hd. subst d. bsplit Hfe. apply is_nil_true in W. subst b4. cbn [pr_blank pr_default] in Hnid.
-    destruct an; [discriminate|]. destruct sp; [|discriminate]. exact Hnid.
+  - intros Hfe. destruct sp; [|discriminate]. destruct an; [discriminate|]. cbn [sep_none is_none andb pr_tail2 pr_sep] in *.
+    destruct d as [[[d1 v] d2]|].
+    + apply andb_prop in Hfe. destruct Hfe as [Hv Hd2]. apply is_nil_true in Hd2. subst d2. cbn [pr_blank] in Cd.
+      now apply (cont_ok_nodigit v r).
+    + apply is_nil_true in Hfe. subst b4. cbn [pr_blank pr_default] in Hnid.
+      apply (hd_is_imp is_digit wordch); [exact digit_identch|]. apply hd_sat_is. exact Hnid.
 Qed.
 
 End Decl.
